@@ -1,6 +1,7 @@
 (* C15 — property theorems only.  Proofs live in Proofs/MergeProofs.v and Proofs/MeshProofs.v. *)
 From Coq Require Import List String Bool Arith ZArith Permutation.
-From Annet Require Import Model.Merge Model.Mesh Spec.P_C15 Proofs.MergeProofs Proofs.MeshProofs.
+From Annet Require Import Model.Merge Model.Mesh Model.MeshExec Spec.P_C15 Spec.P_C15_iface
+     Proofs.MergeProofs Proofs.MeshProofs Proofs.MeshExecProofs.
 Import ListNotations.
 Open Scope string_scope.
 
@@ -169,3 +170,335 @@ Example C15_example_mirror :
   target_interface [("addr", VAtom (AStr "10.0.0.0/31"))] ["e7"; "e8"]
                    (fun _ => "Trunk1") (fun _ => "Vlan") (fun p _ => p) = None.
 Proof. vm_compute. repeat split. Qed.
+
+
+(* ============================================================================================== *)
+(* Interface clause, per-rule sessions, indirect / virtual rules (Model/MeshExec.v: the whole of     *)
+(* MeshExecutor.execute_for; Spec/P_C15_iface.v: the declarative selection)                          *)
+
+(* _apply_direct_interface_changes after to_interface_changes, for EVERY DTO, port list, connection
+   list, device state and adapter naming: the outcome is decided by the declarative table --
+   ValueError exactly on a refused combination (LAG+SVI, SVI+subif, several links without LAG/SVI),
+   otherwise the session sits on the selected interface (port -> that port; lag -> <lag name>;
+   subif n -> <parent>.<n> for every integer n, 0 included; svi -> <svi name>), the local address
+   (and vrf) is assigned on exactly that interface, existing interfaces are kept, the target exists. *)
+Theorem C15_interface :
+  forall nm conns ports local d,
+    match direct_step nm conns ports local d with
+    | inr (t, d') =>
+      refused_direct local (List.length (pair_ports conns ports)) = false /\
+      t = selected_direct nm local (hd "" (pair_ports conns ports)) /\
+      d_log d' = (d_log d ++ [(t, get_str "addr" local, txt "vrf" local)])%list /\
+      (forall i, sin i (d_ifs d) = true -> sin i (d_ifs d') = true) /\
+      (sin t (d_ifs d') = true \/ t = hd "" (pair_ports conns ports))
+    | inl FValue =>
+      wf_iface_dto local = true /\ refused_direct local (List.length (pair_ports conns ports)) = true
+    | inl FOther => wf_iface_dto local = false \/ pair_ports conns ports = []
+    end.
+Proof. exact direct_step_table. Qed.
+Print Assumptions C15_interface.
+
+(* the same for _apply_indirect_interface_changes: sub-interface of ifname / SVI / ifname itself /
+   no interface (then no address is assigned); ValueError exactly when refused *)
+Theorem C15_interface_indirect :
+  forall nm local d,
+    match indirect_step nm local d with
+    | inr (t, d') =>
+      refused_indirect local (d_ifs d) = false /\
+      t = selected_indirect nm local /\
+      d_log d' = (d_log d ++ log_of t local)%list /\
+      (forall i, sin i (d_ifs d) = true -> sin i (d_ifs d') = true) /\
+      (forall n, t = Some n -> sin n (d_ifs d') = true)
+    | inl FValue => wf_iface_dto local = true /\ refused_indirect local (d_ifs d) = true
+    | inl FOther => wf_iface_dto local = false \/ typed_str "ifname" local = false
+    end.
+Proof. exact indirect_step_table. Qed.
+Print Assumptions C15_interface_indirect.
+
+(* with the naming of the stub / netbox adapter: unit n of whatever the rest of the DTO selects is
+   <parent>.<n>, differs from the parent for every n (unit 0 is not "no sub-interface"), and distinct
+   units are distinct interfaces *)
+Theorem C15_subif_unit :
+  (forall local base n,
+     num "subif" local = Some n -> num "svi" local = None ->
+     selected_direct stub_naming local base =
+       (selected_direct stub_naming (unset "subif" local) base ++ "." ++ dec n)%string /\
+     selected_direct stub_naming local base <> selected_direct stub_naming (unset "subif" local) base) /\
+  (forall base n m, subif_name stub_naming base n = subif_name stub_naming base m -> n = m).
+Proof. split; [exact stub_selected_subif|exact stub_subif_inj]. Qed.
+Print Assumptions C15_subif_unit.
+
+(* the whole run: whenever execute_for succeeds, the peers are, in order, the direct, virtual and
+   indirect pairs the three rule loops produced; each peer's interface is the one the (merged) DTO
+   of its pair selects; the addresses assigned during the run are exactly the local addresses of the
+   direct and indirect pairs, each on the selected interface; no direct pair was a refused combination *)
+Theorem C15_interface_run :
+  forall dmatches dhandler imatches ihandler vmatches vhandler connections
+         sch_direct sch_indirect sch_vlocal sch_vpeer sch_pair opt_fields nm
+         drules irules vrules device nbs all d0 peers d',
+    execute_for dmatches dhandler imatches ihandler vmatches vhandler connections
+                sch_direct sch_indirect sch_vlocal sch_vpeer sch_pair opt_fields nm
+                drules irules vrules device nbs all d0 = inr (peers, d') ->
+    exists dpairs vpairs ipairs,
+      execute_direct dmatches dhandler connections sch_direct sch_pair drules device nbs = inr dpairs /\
+      execute_virtual vmatches vhandler sch_vlocal sch_vpeer vrules device = inr vpairs /\
+      execute_indirect imatches ihandler sch_indirect sch_pair irules device all = inr ipairs /\
+      map peer_iface peers =
+        (map (fun kp => Some (VAtom (AStr (direct_seat connections nm device kp)))) dpairs ++
+         map (fun lc => Some (iface_val (virtual_seat nm lc))) vpairs ++
+         map (fun kp => Some (iface_val (indirect_seat nm kp))) ipairs)%list /\
+      d_log d' = (d_log d0 ++ map (direct_log connections nm device) dpairs ++
+                  flat_map (fun kp => log_of (indirect_seat nm kp) (pair_local kp)) ipairs)%list /\
+      Forall (fun kp => refused_direct (pair_local kp)
+                          (List.length (direct_ports connections device kp)) = false) dpairs /\
+      Forall (fun lc => virtual_seat nm lc <> None) vpairs /\
+      Forall (fun kp => forall n, indirect_seat nm kp = Some n -> sin n (d_ifs d') = true) ipairs.
+Proof. exact execute_for_seats. Qed.
+Print Assumptions C15_interface_run.
+
+(* Sessions are per rule match and merged per (fqdn, addr, vrf): an attribute found in the session
+   with `fst (fst k)` (in the device's own DTO or in the peer's DTO) was set by a handler call for
+   that very pair.  Contrapositive form: if every call for the pair is silent on f (sets it neither on
+   that side nor on the session object), the session has no f -- whatever calls for other pairs set. *)
+Theorem C15_no_leak :
+  forall imatches ihandler sch_indirect sch_pair rules device all acc (local_side : bool) f k p,
+    execute_indirect imatches ihandler sch_indirect sch_pair rules device all = inr acc ->
+    In (k, p) acc ->
+    (forall m, In m (lookup_direct imatches rules device all) -> other_end m = fst (fst k) ->
+               silent ihandler device m [] local_side f) ->
+    lookup f (obj_of (side_name local_side) p) = None.
+Proof. exact indirect_no_leak. Qed.
+Print Assumptions C15_no_leak.
+
+Theorem C15_no_leak_direct :
+  forall dmatches dhandler connections sch_direct sch_pair rules device nbs acc (local_side : bool) f k p,
+    execute_direct dmatches dhandler connections sch_direct sch_pair rules device nbs = inr acc ->
+    In (k, p) acc ->
+    (forall m ports, In (m, ports) (direct_work connections device (lookup_direct dmatches rules device nbs)) ->
+                     other_end m = fst (fst k) -> silent dhandler device m ports local_side f) ->
+    lookup f (obj_of (side_name local_side) p) = None.
+Proof. exact direct_no_leak. Qed.
+Print Assumptions C15_no_leak_direct.
+
+(* Mirror for an indirect rule match: B finds the same rule in the other orientation, runs the same
+   handler call and gets the two DTOs exchanged; the peers point at each other's address and AS number *)
+Theorem C15_mirror_indirect :
+  forall imatches ihandler sch_indirect rules A B all r o L R loc con,
+    In A all ->
+    In (Matched r o L R) (lookup_direct imatches rules A all) ->
+    other_end (Matched r o L R) = B ->
+    execute_direct_pair ihandler sch_indirect A B (Matched r o L R) [] = Some (Ok (loc, con)) ->
+    In (Matched r (negb o) L R) (lookup_direct imatches rules B all) /\
+    other_end (Matched r (negb o) L R) = A /\
+    execute_direct_pair ihandler sch_indirect B A (Matched r (negb o) L R) [] = Some (Ok (con, loc)) /\
+    forall opt iA iB pA pB,
+      mk_peer opt loc con B iA = Some pA -> mk_peer opt con loc A iB = Some pB ->
+      lookup "addr" pA = ip_val (lookup "addr" con) /\ lookup "addr" pB = ip_val (lookup "addr" loc) /\
+      lookup "remote_as" pA = lookup "asnum" con /\ lookup "remote_as" pB = lookup "asnum" loc /\
+      lookup "families" pA = Some (dflt "families" con (VSet [])) /\
+      lookup "families" pB = Some (dflt "families" loc (VSet [])).
+Proof. exact indirect_mirror. Qed.
+Print Assumptions C15_mirror_indirect.
+
+(* A virtual session has one end: its two DTOs are the handler's local / virtual-peer objects each
+   merged with the session object of that very call, svi is present, nothing else gets in *)
+Theorem C15_virtual_session :
+  forall vhandler sch_vlocal sch_vpeer device r n local con,
+    virtual_pair vhandler sch_vlocal sch_vpeer device r n = Some (inr (local, con)) ->
+    let '(l, v, s) := vhandler (v_id r) device n in
+    merge_all sch_vlocal [] [l; s] = Ok local /\ merge_all sch_vpeer [] [v; s] = Ok con /\
+    mem "svi" local = true /\
+    (forall f, lookup f v = None -> lookup f s = None -> lookup f con = None) /\
+    (forall f, lookup f l = None -> lookup f s = None -> lookup f local = None).
+Proof. exact virtual_pair_spec. Qed.
+Print Assumptions C15_virtual_session.
+
+(* the same at the level of the BgpConfig: an option of the peer computed for the indirect session with
+   C is an attribute some handler call for the pair (device, C) set on the device's side or the session *)
+Theorem C15_no_leak_peer :
+  forall imatches ihandler sch_indirect sch_pair opt_fields nm rules device all ipairs d ps d',
+    execute_indirect imatches ihandler sch_indirect sch_pair rules device all = inr ipairs ->
+    conv_indirect opt_fields nm ipairs d = inr (ps, d') ->
+    Forall2 (fun kp peer =>
+      forall o g,
+        lookup "options" peer = Some (VObj o) ->
+        (forall m, In m (lookup_direct imatches rules device all) -> other_end m = pair_other kp ->
+                   silent ihandler device m [] true (opt_src g)) ->
+        lookup g o = None) ipairs ps.
+Proof. exact indirect_no_leak_peer. Qed.
+Print Assumptions C15_no_leak_peer.
+
+(* merged per key: the sessions a loop returns have pairwise different (fqdn, addr, vrf) keys *)
+Theorem C15_one_session_per_key :
+  (forall imatches ihandler sch_indirect sch_pair rules device all acc,
+     execute_indirect imatches ihandler sch_indirect sch_pair rules device all = inr acc ->
+     distinct_keys (map fst acc)) /\
+  (forall dmatches dhandler connections sch_direct sch_pair rules device nbs acc,
+     execute_direct dmatches dhandler connections sch_direct sch_pair rules device nbs = inr acc ->
+     distinct_keys (map fst acc)).
+Proof. split; [exact indirect_keys_distinct|exact direct_keys_distinct]. Qed.
+Print Assumptions C15_one_session_per_key.
+
+(* keyed by the peer's address: with Pair.connected merged by Merge() and addr a ForbidChange field (true
+   of the real classes, see C15_example_key_guards), every session a loop returns is stored under the
+   address its peer DTO carries -- so Peer.addr is the ip of the key it was merged under *)
+Theorem C15_key_is_peer_addr :
+  forall sch_pair dto,
+    lookup "connected" sch_pair = Some (MMerge dto) -> lookup "addr" dto = Some MForbidChange ->
+    (forall imatches ihandler rules device all acc,
+       execute_indirect imatches ihandler dto sch_pair rules device all = inr acc -> Forall keyed_ok acc) /\
+    (forall dmatches dhandler connections rules device nbs acc,
+       execute_direct dmatches dhandler connections dto sch_pair rules device nbs = inr acc -> Forall keyed_ok acc).
+Proof.
+  intros sch_pair dto H1 H2. split.
+  - exact (indirect_keyed sch_pair dto H1 H2).
+  - exact (direct_keyed sch_pair dto H1 H2).
+Qed.
+Print Assumptions C15_key_is_peer_addr.
+
+(* ---- non-vacuity of the new theorems --------------------------------------------------------------- *)
+
+Definition ex_dev : dev := Dev ["lo0"; "e1"; "e2"] [].
+Definition ex_conns : list (string * string) := [("e1", "e7"); ("e2", "e8")].
+Definition ex_local (sel : entries) : entries := (("addr", VAtom (AStr "10.0.0.1/31")) :: sel)%list.
+Definition zi (z : Z) : value := VAtom (AInt z).
+
+(* unit 0 on a port, unit 0 on a LAG, SVI 0, a reused LAG, and the refused combinations *)
+Example C15_example_interface :
+  direct_step stub_naming ex_conns ["e1"] (ex_local [("subif", zi 0)]) ex_dev =
+    inr ("e1.0", Dev ["lo0"; "e1"; "e2"; "e1.0"] [("e1.0", "10.0.0.1/31", None)]) /\
+  direct_step stub_naming ex_conns ["e1"; "e2"] (ex_local [("lag", zi 7); ("subif", zi 0); ("vrf", VAtom (AStr "V"))]) ex_dev =
+    inr ("Trunk7.0", Dev ["lo0"; "e1"; "e2"; "Trunk7"; "Trunk7.0"] [("Trunk7.0", "10.0.0.1/31", Some "V")]) /\
+  direct_step stub_naming ex_conns ["e1"; "e2"] (ex_local [("svi", zi 0)]) ex_dev =
+    inr ("Vlan0", Dev ["lo0"; "e1"; "e2"; "Vlan0"] [("Vlan0", "10.0.0.1/31", None)]) /\
+  direct_step stub_naming ex_conns ["e2"] (ex_local [("lag", zi 0)]) (Dev ["lo0"; "Trunk0"] []) =
+    inr ("Trunk0", Dev ["lo0"; "Trunk0"] [("Trunk0", "10.0.0.1/31", None)]) /\
+  direct_step stub_naming ex_conns ["e1"; "e2"] (ex_local [("subif", zi 0)]) ex_dev = inl FValue /\
+  direct_step stub_naming ex_conns ["e1"] (ex_local [("svi", zi 0); ("subif", zi 0)]) ex_dev = inl FValue /\
+  direct_step stub_naming ex_conns ["e1"] (ex_local [("lag", zi 0); ("svi", zi 0)]) ex_dev = inl FValue /\
+  indirect_step stub_naming (ex_local [("ifname", VAtom (AStr "lo0")); ("subif", zi 0)]) ex_dev =
+    inr (Some "lo0.0", Dev ["lo0"; "e1"; "e2"; "lo0.0"] [("lo0.0", "10.0.0.1/31", None)]) /\
+  indirect_step stub_naming (ex_local []) ex_dev = inr (None, ex_dev) /\
+  indirect_step stub_naming (ex_local [("ifname", VAtom (AStr "xe9"))]) ex_dev = inl FValue.
+Proof. vm_compute. repeat split. Qed.
+
+(* no leak, non-vacuous: a1 has indirect sessions with b1 and c1; only the call for (a1, b1) sets
+   rr_client (on a1's side) and multipath (on the session).  The premise of C15_no_leak holds for c1
+   and both attributes; the session with b1 does carry them. *)
+Definition ex_isch : schema :=
+  [("addr", MForbidChange); ("asnum", MForbidChange); ("families", MUnite); ("rr_client", MForbidChange);
+   ("multipath", MForbidChange); ("ifname", MForbidChange)].
+Definition ex_psch : schema := [("local", MMerge ex_isch); ("connected", MMerge ex_isch); ("ports", MForbidChange)].
+Definition ex_imatches (_ : nat) (l r : string) : bool :=
+  String.eqb l "a1" && (String.eqb r "b1" || String.eqb r "c1").
+Definition ex_ihandler (id : nat) (l r : string) (_ : list string) : entries * entries * entries :=
+  if String.eqb r "b1" then
+    ([("addr", VAtom (AStr "172.16.0.1/32")); ("asnum", zi 65001); ("rr_client", VAtom (ABool true))],
+     [("addr", VAtom (AStr "172.16.0.2/32")); ("asnum", zi 65002)],
+     (if Nat.eqb id 1 then [("multipath", VAtom (ABool true))] else [("families", VSet [AStr "ipv4_unicast"])]))
+  else
+    ([("addr", VAtom (AStr "172.16.1.1/32")); ("asnum", zi 65001)],
+     [("addr", VAtom (AStr "172.16.1.2/32")); ("asnum", zi 65003)],
+     [("families", VSet [AStr "ipv6_unicast"])]).
+Definition ex_irules : list rule := [Rule 0 United; Rule 1 United].
+Definition ex_all : list string := ["a1"; "b1"; "c1"].
+
+Example C15_example_no_leak :
+  exists accB accC pB pC,
+    execute_indirect ex_imatches ex_ihandler ex_isch ex_psch ex_irules "a1" ex_all =
+      inr [(("b1", VAtom (AStr "172.16.0.2/32"), VAtom (AStr "")), pB);
+           (("c1", VAtom (AStr "172.16.1.2/32"), VAtom (AStr "")), pC)] /\
+    accB = obj_of "local" pB /\ accC = obj_of "local" pC /\
+    (* two rule matches were merged into the session with b1, and it has both attributes *)
+    lookup "rr_client" accB = Some (VAtom (ABool true)) /\ lookup "multipath" accB = Some (VAtom (ABool true)) /\
+    lookup "multipath" (obj_of "connected" pB) = Some (VAtom (ABool true)) /\
+    (* the premise of the theorem for c1 *)
+    (forall m, In m (lookup_direct ex_imatches ex_irules "a1" ex_all) -> other_end m = "c1" ->
+               silent ex_ihandler "a1" m [] true "rr_client" /\ silent ex_ihandler "a1" m [] true "multipath" /\
+               silent ex_ihandler "a1" m [] false "multipath") /\
+    lookup "rr_client" accC = None /\ lookup "multipath" accC = None.
+Proof.
+  eexists. eexists. eexists. eexists. split; [vm_compute; reflexivity|].
+  split; [reflexivity|]. split; [reflexivity|].
+  split; [vm_compute; reflexivity|]. split; [vm_compute; reflexivity|]. split; [vm_compute; reflexivity|].
+  split.
+  - intros m Hin Ho. vm_compute in Hin.
+    repeat (destruct Hin as [Hin|Hin]; [subst m; vm_compute in Ho; try discriminate; vm_compute; repeat split|]);
+      destruct Hin.
+  - split; vm_compute; reflexivity.
+Qed.
+
+(* indirect mirror, non-vacuous: seen from b1 the rule is found in reverse order and the DTOs swap *)
+Example C15_example_mirror_indirect :
+  let m := Matched (Rule 0 United) true "a1" "b1" in
+  In m (lookup_direct ex_imatches ex_irules "a1" ex_all) /\
+  execute_direct_pair ex_ihandler ex_isch "a1" "b1" m [] =
+    Some (Ok ([("addr", VAtom (AStr "172.16.0.1/32")); ("asnum", zi 65001); ("rr_client", VAtom (ABool true));
+               ("families", VSet [AStr "ipv4_unicast"])],
+              [("addr", VAtom (AStr "172.16.0.2/32")); ("asnum", zi 65002); ("families", VSet [AStr "ipv4_unicast"])])) /\
+  execute_direct_pair ex_ihandler ex_isch "b1" "a1" (Matched (Rule 0 United) false "a1" "b1") [] =
+    Some (Ok ([("addr", VAtom (AStr "172.16.0.2/32")); ("asnum", zi 65002); ("families", VSet [AStr "ipv4_unicast"])],
+              [("addr", VAtom (AStr "172.16.0.1/32")); ("asnum", zi 65001); ("rr_client", VAtom (ABool true));
+               ("families", VSet [AStr "ipv4_unicast"])])).
+Proof. vm_compute. repeat split. left. reflexivity. Qed.
+
+(* C15_no_leak discriminates: in the loop with the session object hoisted out of `for rule in rules`
+   (Proofs/MeshExecProofs.fold_indirect_shared, a mutant, not the model) the session with c1 does get
+   `multipath`, which only the call for (a1, b1) set -- the conclusion of C15_no_leak fails there while
+   its premise (C15_example_no_leak) holds *)
+Example C15_example_shared_session_leaks :
+  exists pC,
+    fold_indirect_shared ex_ihandler ex_isch ex_psch "a1" (lookup_direct ex_imatches ex_irules "a1" ex_all) [] [] =
+      inr [(("b1", VAtom (AStr "172.16.0.2/32"), VAtom (AStr "")),
+            [("local", VObj [("addr", VAtom (AStr "172.16.0.1/32")); ("asnum", zi 65001); ("rr_client", VAtom (ABool true));
+                             ("families", VSet [AStr "ipv4_unicast"]); ("multipath", VAtom (ABool true))]);
+             ("connected", VObj [("addr", VAtom (AStr "172.16.0.2/32")); ("asnum", zi 65002);
+                                 ("families", VSet [AStr "ipv4_unicast"]); ("multipath", VAtom (ABool true))])]);
+           (("c1", VAtom (AStr "172.16.1.2/32"), VAtom (AStr "")), pC)] /\
+    lookup "multipath" (obj_of "local" pC) = Some (VAtom (ABool true)).
+Proof. eexists. split; vm_compute; reflexivity. Qed.
+
+Example C15_example_keys :
+  match execute_indirect ex_imatches ex_ihandler ex_isch ex_psch ex_irules "a1" ex_all with
+  | inr acc => map (fun kp => fst (fst (fst kp))) acc = ["b1"; "c1"]
+  | inl _ => False
+  end.
+Proof. vm_compute. reflexivity. Qed.
+
+Example C15_example_key_guards :
+  lookup "connected" ex_psch = Some (MMerge ex_isch) /\ lookup "addr" ex_isch = Some MForbidChange.
+Proof. split; reflexivity. Qed.
+
+(* ---- the mirror after the keyed merge of several handlers is NOT a theorem -------------------------- *)
+
+(* Proofs/MeshProofs.C15_mirror_merged_statement is false of the model, and of the real executor (replayed:
+   known/C15.json): the two ends group the handler results under different keys -- A under
+   (B, right.addr, right.vrf), B under (A, left.addr, left.vrf).  When one of two handlers for the same pair
+   sets vrf on the left peer object only, A merges both results into one session while B keeps two (same
+   address, vrf_name "VA" and ""), neither of which is the swap of A's. *)
+Definition rx_dto : schema :=
+  [("addr", MForbidChange); ("asnum", MForbidChange); ("vrf", MForbidChange); ("bfd", MForbidChange)].
+Definition rx_pair : schema := [("local", MMerge rx_dto); ("connected", MMerge rx_dto); ("ports", MForbidChange)].
+Definition rx_matches (_ : nat) (l r : string) : bool := String.eqb l "a1" && String.eqb r "b1".
+Definition rx_handler (id : nat) (_ _ : string) (_ : list string) : entries * entries * entries :=
+  (([("addr", VAtom (AStr "10.0.0.1/30")); ("asnum", VAtom (AInt 65001))] ++
+    (if Nat.eqb id 0 then [("vrf", VAtom (AStr "VA"))] else []))%list,
+   [("addr", VAtom (AStr "10.0.0.2/30")); ("asnum", VAtom (AInt 65002))],
+   if Nat.eqb id 0 then [] else [("bfd", VAtom (ABool true))]).
+Definition rx_conn (_ _ : string) : list (string * string) := [("e1", "e1")].
+Definition rx_rules : list rule := [Rule 0 United; Rule 1 United].
+
+
+Theorem C15_mirror_merged_refuted : ~ C15_mirror_merged_statement.
+Proof.
+  intros H.
+  destruct (execute_direct rx_matches rx_handler rx_conn rx_dto rx_pair rx_rules "a1" ["b1"]) as [e|accA] eqn:EA;
+    [vm_compute in EA; discriminate|].
+  destruct (execute_direct rx_matches rx_handler rx_conn rx_dto rx_pair rx_rules "b1" ["a1"]) as [e|accB] eqn:EB;
+    [vm_compute in EB; discriminate|].
+  pose proof (H rx_matches rx_handler rx_conn rx_dto rx_pair rx_rules "a1" "b1" ["b1"] ["a1"] accA accB EA EB) as M.
+  vm_compute in EA. injection EA as EA. vm_compute in EB. injection EB as EB. subst accA accB.
+  edestruct M as [k' [pb [Hin [_ [H1 H2]]]]]; [left; reflexivity|reflexivity|].
+  destruct Hin as [Hin|[Hin|[]]]; injection Hin as Hk Hp; subst; vm_compute in H2; discriminate.
+Qed.
+Print Assumptions C15_mirror_merged_refuted.
